@@ -34,6 +34,9 @@ theorem Refines.admittedFrom {I : Impl K V} {cmp : K → K → Int} {eqV : V →
       · intro r'; unfold update; split
         · exact hinv'
         · exact hinv r'
+    | mergeOther d =>
+      simp only [Impl.runFrom, Impl.mstep, Admitted]
+      exact ⟨fun r => R.abs (regs r), by simp [MStep], ih regs hinv⟩
     | merge d s =>
       by_cases hds : d = s
       · simp only [Impl.runFrom, Impl.mstep, hds, if_true, Admitted]
